@@ -516,7 +516,24 @@ def enumerated(tier, seed):
             ("decl", "total", "int", V("total"), ("export",)), ("decl", "add", ("fn", ["int"], "int"), V("add"), ("export",)),
             ("print", ("call", V("add"), [I(5)])), ("print", V("total")), D("total", I(100)), ("print", ("call", V("cur"), [])),
             ("print", ("call", V("add"), [I(1)])), ("print", V("total")), ("opassign", V("total"), "+=", I(2)), ("print", ("call", V("cur"), []))]
-    return [{"stmts": late, "labels": ["fixed:captured-variable-exported-afterwards"], "nt": True},
+    # closures created inside an if / else / from / while body capture a variable DECLARED IN THAT BLOCK and are called after the
+    # block (or that iteration) has ended: the variable lives on with its closures - one per iteration, shared by the closures of
+    # one iteration
+    LF = ("list", FI)
+    def mk_pair(var):
+        return [("expr", ("mcall", V("keep"), "push", [("fn", [], "int", [D(var, ("bin", "+", V(var), I(1)), ("modify",)), ("return", V(var))])])),
+                ("expr", ("mcall", V("keep"), "push", [("fn", [], "int", [("return", V(var))])]))]
+    blk = [("decl", "keep", LF, ("list", []), ()), D("one", I(1)),
+           ("if", ("bin", ">", V("one"), I(0)), [D("bx", I(10))] + mk_pair("bx"), None),
+           ("if", ("bin", "<", V("one"), I(0)), [("print", I(0))], [D("ex", I(20))] + mk_pair("ex")),
+           ("from", I(0), I(2), False, None, "i", [D("li", ("bin", "*", V("i"), I(100)))] + mk_pair("li")),
+           D("wg", I(0)), ("while", ("bin", "<", V("wg"), I(2)), [D("wg", ("bin", "+", V("wg"), I(1))), D("wv", ("bin", "*", V("wg"), I(1000)))] + mk_pair("wv"))]
+    for k in range(12):
+        blk += [D("c%d" % k, ("index", V("keep"), I(k)))]
+    for k in (0, 0, 1, 2, 3, 4, 4, 5, 6, 7, 8, 9, 10, 10, 11, 1, 5, 7):
+        blk.append(("print", ("call", V("c%d" % k), [])))
+    return [{"stmts": blk, "labels": ["fixed:closures-over-block-locals-called-after-the-block"], "nt": True},
+            {"stmts": late, "labels": ["fixed:captured-variable-exported-afterwards"], "nt": True},
             {"stmts": rec, "labels": ["fixed:closure-that-calls-itself-then-uses-its-captures"], "nt": True},
             {"stmts": pm, "labels": ["fixed:parameter-named-like-the-modified-variable"], "nt": True},
             {"stmts": pm_factory, "labels": ["fixed:parameter-of-the-factory-is-the-captured-variable"], "nt": True},
